@@ -22,6 +22,11 @@ from . import common
 
 PID = "C14"
 CANARY = 4999
+# real float64 dictionary + complex data on a MATRIX-FREE operator is still mishandled by the unchanged tree
+# (linearoperator._ColumnLinearOperator._matvec, non-explicit path: y = zeros(n, dtype=self.dtype); y[cols] = x drops the
+# imaginary parts: Free(A).apply_columns([1]).matvec([1j]) == 0; omp: cost[-1] 3.85 vs true residual 22.78). Reported to
+# the coordinator; such cases are generated only on explicit operators until that is repaired (then set True).
+AREAL_MATRIX_FREE = False
 
 # proposed entry for known_findings.json (see final report of the C14 builder)
 PROPOSED_KNOWN = [
@@ -32,6 +37,10 @@ PROPOSED_KNOWN = [
      "predicate": "niter_inner == 0 and normalizecols and max_j ||A[:,j]||^2 > 2"},
 ]
 
+# NOTE_MIXED: mixed kinds. Complex dictionary + float64 y with niter_inner > 0 always worked. Before /repo commit
+# c4bc995 the other mixed kinds were mishandled (complex dictionary + float64 y + niter_inner=0 raised UFuncTypeError;
+# real dictionary + complex y dropped the imaginary parts of x in finalize: cost[-1] 1.198 vs true residual 6.247);
+# since that fix all of them are valid inputs and are generated, every clause being judged on the RETURNED x.
 CODES = {1: "selected column is not of maximal correlation", 2: "cols bookkeeping differs from 'append iff new'",
          3: "cost entry != true residual norm", 4: "non-zero of x outside the reported columns",
          5: "x is not the least-squares solution on the reported columns", 6: "A_cols^H (y - A x) not ~ 0",
@@ -138,8 +147,15 @@ def gen_case(r, kind):
     A, cplx, ortho = gen_dict(r, kind)
     m, n = len(A), len(A[0])
     ykind = r.choice(["sparse", "sparse", "dense", "dense", "zero"] if r.random() < 0.15 else ["sparse", "sparse", "dense"])
+    # mixed kinds (valid since /repo c4bc995, see NOTE_MIXED): COMPLEX dictionary with REAL-valued data held in a
+    # float64 array, and REAL (float64) dictionary with COMPLEX data; both for OMP and MP
+    yreal = cplx and r.random() < 0.4
+    areal = (not cplx) and r.random() < 0.25
+    if yreal and ykind == "sparse":
+        ykind = "dense"
+    An = np.array(A, dtype=complex if cplx else float)
+    cplx = cplx or areal                 # from here on: 'some complex values involved' (Coq instance EG)
     dt = complex if cplx else float
-    An = np.array(A, dtype=dt)
     x0 = None
     if ykind == "sparse":
         k = r.randint(1, min(m, n))
@@ -152,7 +168,7 @@ def gen_case(r, kind):
             x0[j] = v
         y = An @ np.array(x0, dtype=dt)
     elif ykind == "dense":
-        y = np.array([complex(r.randint(-5, 5), r.randint(-5, 5)) if cplx else r.randint(-5, 5) for _ in range(m)], dtype=dt)
+        y = np.array([complex(r.randint(-5, 5), 0 if yreal else r.randint(-5, 5)) if cplx else r.randint(-5, 5) for _ in range(m)], dtype=dt)
     else:
         y = np.zeros(m, dtype=dt)
     mp = r.random() < 0.3
@@ -175,9 +191,10 @@ def gen_case(r, kind):
         sigma = r.choice([1e-10, 1e-6, 0.5]) * ysc
         if nouter >= k:
             expect = (x0, k)
-    return {"kind": kind, "ykind": ykind, "A": A, "y": [complex(v) if cplx else float(v.real) for v in y], "cplx": cplx,
+    return {"kind": kind, "ykind": ykind, "A": A, "y": [complex(v) if (cplx and not yreal) else float(v.real) for v in y], "cplx": cplx,
+            "yreal": yreal, "areal": areal,
             "ortho": ortho, "mp": mp, "nc": nc, "nouter": nouter, "sigma": sigma, "niter_inner": 0 if mp else 100,
-            "yscale": ysc, "free": r.random() < 0.4, "npseed": r.randrange(2 ** 31), "expect": expect}
+            "yscale": ysc, "free": r.random() < 0.4 and (AREAL_MATRIX_FREE or not areal), "npseed": r.randrange(2 ** 31), "expect": expect}
 
 
 # ------------------------------------------------------------------ running the implementation
@@ -201,8 +218,13 @@ def mkop(A, free):
 
 def arrays(c):
     dt = complex if c["cplx"] else float
-    return np.array([[complex(a) if c["cplx"] else a for a in row] for row in c["A"]], dtype=dt), \
-        np.array([complex(v) if c["cplx"] else v for v in c["y"]], dtype=dt)
+    if c.get("yreal"):          # complex dictionary, real data: y is a float64 array
+        y = np.array([float(np.real(v)) for v in c["y"]], dtype=float)
+    else:
+        y = np.array([complex(v) if c["cplx"] else v for v in c["y"]], dtype=dt)
+    if c.get("areal"):          # real (float64) dictionary, complex data
+        return np.array([[float(np.real(a)) for a in row] for row in c["A"]], dtype=float), y
+    return np.array([[complex(a) if c["cplx"] else a for a in row] for row in c["A"]], dtype=dt), y
 
 
 def drive(c):
@@ -365,7 +387,8 @@ def clause_failures(c):
 def to_replay(c, code, text):
     return {"A": [[str(a) for a in row] for row in c["A"]], "y": [str(v) for v in c["y"]], "cplx": c["cplx"],
             "options": {"niter_outer": c["nouter"], "niter_inner": c["niter_inner"], "sigma": c["sigma"],
-                        "normalizecols": c["nc"], "matrix_free_operator": c["free"]},
+                        "normalizecols": c["nc"], "matrix_free_operator": c["free"],
+                        "y_is_float64_array": bool(c.get("yreal")), "dictionary_is_float64": bool(c.get("areal"))},
             "numpy_seed": c["npseed"], "expect": [[str(v) for v in c["expect"][0]], c["expect"][1]] if c["expect"] else None,
             "clause": code, "clause_text": CODES[code], "observed": text,
             "x": [str(v) for v in c.get("x", [])], "cost": c.get("cost"), "iiter": c.get("iiter"), "cols_per_step": c.get("trace")}
@@ -377,6 +400,7 @@ def from_replay(rp):
     return {"A": [[cv(a) for a in row] for row in rp["A"]], "y": [cv(v) for v in rp["y"]], "cplx": rp["cplx"],
             "nouter": o["niter_outer"], "niter_inner": o["niter_inner"], "mp": o["niter_inner"] == 0, "sigma": o["sigma"],
             "nc": o["normalizecols"], "free": o["matrix_free_operator"], "npseed": rp["numpy_seed"],
+            "yreal": bool(o.get("y_is_float64_array")), "areal": bool(o.get("dictionary_is_float64")),
             "expect": ([cv(v) for v in rp["expect"][0]], rp["expect"][1]) if rp.get("expect") else None}
 
 
@@ -519,11 +543,15 @@ def main(tier):
              "(orthonormal), {0,+-1} columns of squared norm <= 2, dictionaries with duplicated/negated columns (exact ties); "
              "y = A x0 with k-sparse integer x0, dense integer y, or 0; niter_outer in {0..8}, niter_inner in {0 (MP), 100}, "
              "sigma in {0,1e-10,1e-6,1e-4,.5,2,5}; y, x0 and sigma multiplied by an exact power of two in {1, 2^-30, 2^-40, 2^20} "
-             "(all tolerances are relative to ||y||); near-tie dictionaries (column b = (1+2^-20) column a); normalizecols on/off, explicit MatrixMult or matrix-free operator; numpy global "
+             "(all tolerances are relative to ||y||); mixed kinds: complex dictionary with real data in a float64 array, real float64 dictionary with complex data (OMP and MP); near-tie dictionaries (column b = (1+2^-20) column a); normalizecols on/off, explicit MatrixMult or matrix-free operator; numpy global "
              "seed fixed per case. non-trivial = distinct (A, y, options) with at least one step and non-zero returned x",
         kinds={k: sum(1 for c in cases if c["kind"] == k) for k, _ in KIND_W},
         yscale_hist={str(v): sum(1 for c in cases if c["yscale"] == v) for v in (1.0, 2.0 ** -30, 2.0 ** -40, 2.0 ** 20)},
-        complex_cases=sum(1 for c in cases if c["cplx"]), mp_cases=sum(1 for c in cases if c["mp"]),
+        complex_cases=sum(1 for c in cases if c["cplx"]),
+        complex_dictionary_real_float64_y_cases=sum(1 for c in cases if c.get("yreal")),
+        complex_dictionary_real_y_mp_cases=sum(1 for c in cases if c.get("yreal") and c["mp"]),
+        real_dictionary_complex_y_cases=sum(1 for c in cases if c.get("areal")),
+        real_dictionary_complex_y_mp_cases=sum(1 for c in cases if c.get("areal") and c["mp"]), mp_cases=sum(1 for c in cases if c["mp"]),
         normalizecols_cases=sum(1 for c in cases if c["nc"]), matrix_free_cases=sum(1 for c in cases if c["free"]),
         orthonormal_recovery_cases=sum(1 for c in cases if c["expect"]), steps_total=sum(c["iiter"] for c in cases),
         steps_with_exact_ties=tie_steps, steps_reselecting_a_column=repeats,
